@@ -28,6 +28,11 @@
      "create-dir"        create of an existing directory opens the directory                       (be556e3)
      "create-stale-attr" create(O_TRUNC) replies with the attributes read before the truncation    (a15b2a9)
      "seeded:nofollow"   NOT a finding: O_NOFOLLOW lost in the lookup (seeded defect, anti-vacuity of C06)
+     "seeded:destroy-unseals"  NOT a finding: destroy() resets the sealing switch and init() does not set it again
+     "seeded:batch-root" NOT a finding: BATCH_FORGET naming the root removes the root from the inode table
+
+   DESTROY + INIT on the same object (PtRemount): handles and inodes are dropped, the root is imported again, the
+   switches that come from the configuration (sealing: `sw`) stay as configured -- SwitchesOK.
 
    References: the model gives every reference slot of the client its own O_PATH entry in S.of (the code
    keeps one descriptor per inode and a count -- the same thing for the environment).  The A level
@@ -51,11 +56,12 @@ VARIABLES S,       \* HostFs state
           htab,    \* handle table: [handle -> [ino, flags: remembered request flags]]
           nexti, nexth,
           size0,   \* sizes of the pre-existing regular files
+          sw,      \* run-time switches the code consults: [seal] (set from the configuration when the object is built)
           taint,   \* known findings this history went through
           bad,     \* A-level obligations broken by an untainted history
           nops, hist, last
-vars == <<S, slots, hslots, itab, htab, nexti, nexth, size0, taint, bad, nops, hist, last>>
-View == <<S, slots, hslots, itab, htab, nexti, nexth, taint, bad, nops>>
+vars == <<S, slots, hslots, itab, htab, nexti, nexth, size0, sw, taint, bad, nops, hist, last>>
+View == <<S, slots, hslots, itab, htab, nexti, nexth, sw, taint, bad, nops>>
 
 Export == 2
 X == [root |-> Export, no_open |-> Cfg.no_open, no_opendir |-> FALSE, xattr |-> TRUE, big |-> {}]
@@ -133,7 +139,7 @@ Fin(q, got, T2, it2, ht2, nx, nh, entry, handle, ino, h) ==
      /\ last' = [q |-> q, got |-> got, exp |-> [kind |-> e.kind, ok |-> e.ok, errs |-> e.errs, ret |-> e.ret], same |-> T2 = e.S]
      /\ hist' = Append(hist, q @@ [st |-> got.st])
      /\ nops' = nops + 1
-     /\ UNCHANGED size0
+     /\ UNCHANGED <<size0, sw>>
 Keep(q, got) == Fin(q, got, S, itab, htab, nexti, nexth, q.op \in {"lookup", "mkdir", "mknod", "symlink", "create", "link"}, q.op \in {"open"} \/ (q.op = "create" /\ ~Cfg.no_open), 0, 0)
 
 (* ---------------- requests ---------------- *)
@@ -155,7 +161,27 @@ PtForget(ns) ==
           /\ bad' = IF taint = {} /\ T2 # e.S THEN bad \cup {"mirror"} ELSE bad
           /\ last' = [q |-> q, got |-> Res("OK", NoRet), exp |-> [kind |-> e.kind, ok |-> e.ok, errs |-> e.errs, ret |-> e.ret], same |-> T2 = e.S]
        /\ hist' = Append(hist, q @@ [st |-> "OK"]) /\ nops' = nops + 1
-       /\ UNCHANGED <<hslots, htab, nexti, nexth, size0, taint>>
+       /\ UNCHANGED <<hslots, htab, nexti, nexth, size0, sw, taint>>
+\* FORGET / BATCH_FORGET naming the root: forget_one() returns at once for ROOT_ID, whatever the count
+PtForgetRoot(count, batch) ==
+  LET q == IF batch THEN [op |-> "batch_forget", items |-> <<<<0, count>>>>, uid |-> 0, gid |-> 0] ELSE [op |-> "forget_root", count |-> count, uid |-> 0, gid |-> 0] IN
+  IF batch /\ "seeded:batch-root" \in AsFound
+  THEN Fin(q, Res("OK", NoRet), S, [n \in DOMAIN itab \ {1} |-> itab[n]], htab, nexti, nexth, FALSE, FALSE, 0, 0)
+  ELSE Keep(q, Res("OK", NoRet))
+\* DESTROY then INIT: handle_map and inode_map cleared, import() registers the root again; configured switches stay
+PtRemount ==
+  LET q == [op |-> "remount", uid |-> 0, gid |-> 0]
+      e == Expect(S, X, q, NSlot, HSlot, 0)
+      T2 == Gc([S EXCEPT !.of = Restrict(S.of, DOMAIN S.of \cap {0})]) IN
+  /\ S' = T2
+  /\ slots' = [k \in 1..Len(slots) |-> IF k = 1 THEN 1 ELSE 0]
+  /\ hslots' = [k \in 1..Len(hslots) |-> 0]
+  /\ itab' = (1 :> [i |-> Export, t |-> "dir", ref |-> 2]) /\ htab' = <<>>
+  /\ sw' = IF "seeded:destroy-unseals" \in AsFound THEN [sw EXCEPT !.seal = FALSE] ELSE sw
+  /\ bad' = IF taint = {} /\ T2 # e.S THEN bad \cup {"mirror"} ELSE bad
+  /\ last' = [q |-> q, got |-> Res("OK", NoRet), exp |-> [kind |-> e.kind, ok |-> e.ok, errs |-> e.errs, ret |-> e.ret], same |-> T2 = e.S]
+  /\ hist' = Append(hist, q @@ [st |-> "OK"]) /\ nops' = nops + 1
+  /\ UNCHANGED <<nexti, nexth, size0, taint>>
 \* mkdir / symlink: validate, then (inside the credentials scope) fetch the directory file and call the host
 PtMk(ps, nm, kind, uid, tgt) ==
   LET q == IF kind = "mkdir" THEN [op |-> "mkdir", p |-> ps, name |-> nm.s, nk |-> nm.k, mode |-> 493, umask |-> 0, emode |-> 493, uid |-> uid, gid |-> uid]
@@ -196,7 +222,7 @@ PtCreate(ps, nm, fl, uid) ==
             Fin(q, Res("OK", Attr(T3, l.id)), T3, l.itab, IF wantH THEN (nexth :> [ino |-> l.ino, flags |-> fl]) @@ htab ELSE htab,
                 l.nexti, IF wantH THEN nexth + 1 ELSE nexth, TRUE, wantH, l.ino, nexth)
        ELSE IF r1.errs # {"EEXIST"} \/ "EXCL" \in fl THEN Keep(q, Res(ErrOf(r1), NoRet))
-       ELSE IF Cfg.seal /\ "TRUNC" \in fl /\ "seal-holes" \notin AsFound THEN Keep(q, Res("EPERM", NoRet))   \* existing file, sealed: no truncating open
+       ELSE IF sw.seal /\ "TRUNC" \in fl /\ "seal-holes" \notin AsFound THEN Keep(q, Res("EPERM", NoRet))   \* existing file, sealed: no truncating open
        ELSE \* step 2: the name exists: lookup, EISDIR for a directory, open_inode_as(args.flags, caller)
             LET l == DoLookup(S, itab, nexti, pino, nm.s, nm.k, NSlot) IN
             IF ~l.ok THEN Keep(q, Res(l.st, NoRet))
@@ -237,7 +263,7 @@ PtOpen(ns, fl) ==
   LET q == [op |-> "open", n |-> ns, fl |-> FlSeq(fl), flags |-> FlNum(fl), uid |-> 0, gid |-> 0]  ino == SlotIno(ns) IN
   IF ino = 0 THEN Keep(q, Res("NOSLOT", NoRet))
   ELSE IF Cfg.no_open THEN Keep(q, Res("ENOSYS", NoRet))
-  ELSE IF Cfg.seal /\ "TRUNC" \in fl /\ "seal-holes" \notin AsFound THEN Keep(q, Res("EPERM", NoRet))     \* do_open: sealed, no truncating open
+  ELSE IF sw.seal /\ "TRUNC" \in fl /\ "seal-holes" \notin AsFound THEN Keep(q, Res("EPERM", NoRet))     \* do_open: sealed, no truncating open
   ELSE LET o == OpenInode(S, itab, ino, Root0, fl, HKey(HSlot)) IN
        IF ~o.ok THEN Keep(q, Res(ErrOf(o), NoRet))
        ELSE Fin(q, Res("OK", NoRet), o.S, itab, (nexth :> [ino |-> ino, flags |-> fl]) @@ htab, nexti, nexth + 1, FALSE, TRUE, 0, nexth)
@@ -251,7 +277,7 @@ PtRelease(hs) ==
           /\ bad' = IF taint = {} /\ T2 # e.S THEN bad \cup {"mirror"} ELSE bad
           /\ last' = [q |-> q, got |-> Res("OK", NoRet), exp |-> [kind |-> e.kind, ok |-> e.ok, errs |-> e.errs, ret |-> e.ret], same |-> T2 = e.S]
        /\ hist' = Append(hist, q @@ [st |-> "OK"]) /\ nops' = nops + 1
-       /\ UNCHANGED <<slots, itab, nexti, nexth, size0, taint>>
+       /\ UNCHANGED <<slots, itab, nexti, nexth, size0, sw, taint>>
 \* get_data + check_fd_flags: [ok, T, key, tmp, ht]
 GetData(ns, hs, acc, reqfl) ==
   IF hs >= 0 THEN
@@ -276,12 +302,12 @@ PtRead(ns, hs, off, len, reqfl) ==
 PtWrite(ns, hs, off, data, reqfl) ==
   LET q == [op |-> "write", n |-> ns, h |-> hs, off |-> off, len |-> Len(data), data |-> data, fl |-> FlSeq(reqfl), flags |-> FlNum(reqfl), uid |-> 0, gid |-> 0] IN
   IF SlotIno(ns) = 0 \/ (hs >= 0 /\ SlotH(hs) = 0) THEN Keep(q, Res("NOSLOT", NoRet))
-  ELSE IF Cfg.seal /\ "APPEND" \in reqfl /\ "seal-holes" \notin AsFound THEN Keep(q, Res("EPERM", NoRet))   \* sealed: an O_APPEND write always grows the file
+  ELSE IF sw.seal /\ "APPEND" \in reqfl /\ "seal-holes" \notin AsFound THEN Keep(q, Res("EPERM", NoRet))   \* sealed: an O_APPEND write always grows the file
   ELSE LET g == GetData(ns, hs, {"RDWR"}, reqfl) IN
        IF ~g.ok THEN Keep(q, Res(g.st, NoRet))
        ELSE IF g.key \notin DOMAIN g.T.of THEN Keep(q, Res("EBADF", NoRet))      \* (as found only) descriptor closed behind the handle's back
        ELSE LET sz == SizeOf(g.T.ino[g.T.of[g.key].i]) IN
-            IF Cfg.seal /\ off + Len(data) > sz
+            IF sw.seal /\ off + Len(data) > sz
             THEN \* seal_size_check refuses. As found, the early return dropped the File wrapping the handle's descriptor: closed
                  Fin(q, Res("EPERM", NoRet), IF "fd-close" \in AsFound THEN Close(g.T, g.key) ELSE Drop(g.T, g), itab, g.ht, nexti, nexth, FALSE, FALSE, 0, 0)
             ELSE LET r == PWrite(g.T, g.key, off, data) IN
@@ -294,7 +320,7 @@ PtFallocate(ns, hs, mode, off, len) ==
        ELSE IF g.key \notin DOMAIN g.T.of THEN Keep(q, Res("EBADF", NoRet))
        ELSE LET sz == SizeOf(g.T.ino[g.T.of[g.key].i])
                 opm == mode \ {"KEEP", "UNSHARE"}
-                refuse == IF ~Cfg.seal THEN "OK"
+                refuse == IF ~sw.seal THEN "OK"
                           ELSE IF opm \in {{}, {"PUNCH"}, {"ZERO"}} THEN (IF off + len > sz THEN "EPERM" ELSE "OK")
                           ELSE IF opm \in {{"COLLAPSE"}, {"INSERT"}} THEN "EPERM" ELSE "EINVAL" IN
             IF refuse # "OK" THEN Fin(q, Res(refuse, NoRet), Drop(g.T, g), itab, g.ht, nexti, nexth, FALSE, FALSE, 0, 0)
@@ -304,7 +330,7 @@ PtSetSize(ns, hs, sz) ==
   LET q == [op |-> "setattr", n |-> ns, h |-> hs, valid |-> <<"SIZE">>, attr |-> [size |-> sz], uid |-> 0, gid |-> 0]  ino == SlotIno(ns) IN
   IF ino = 0 \/ (hs >= 0 /\ SlotH(hs) = 0) THEN Keep(q, Res("NOSLOT", NoRet))
   ELSE IF hs >= 0 /\ ~Cfg.no_open /\ htab[SlotH(hs)].ino # ino THEN Keep(q, Res("EBADF", NoRet))
-  ELSE IF Cfg.seal THEN Keep(q, Res("EPERM", NoRet))
+  ELSE IF sw.seal THEN Keep(q, Res("EPERM", NoRet))
   ELSE IF hs >= 0 /\ ~Cfg.no_open THEN
        LET r == FTruncate(S, HKey(hs), sz) IN
        IF ~r.ok THEN Keep(q, Res(ErrOf(r), NoRet)) ELSE Fin(q, Res("OK", Attr(r.S, itab[ino].i)), r.S, itab, htab, nexti, nexth, FALSE, FALSE, 0, 0)
@@ -330,6 +356,8 @@ Next ==
   /\ nops < MaxOps
   /\ \/ \E ps \in RSlots, nm \in AllNames : PtLookup(ps, nm)
      \/ (~M18 /\ \E ns \in RSlots : PtForget(ns))
+     \/ (~M18 /\ \E c \in {1, 5}, b \in BOOLEAN : PtForgetRoot(c, b))
+     \/ (Mode # "c18fd" /\ PtRemount)
      \/ (~M18 /\ \E ps \in RSlots, nm \in AllNames, kind \in {"mkdir", "mknod", "symlink"}, uid \in Uids, t \in Targets : (kind = "symlink" \/ t = CHOOSE x \in Targets : TRUE) /\ PtMk(ps, nm, kind, uid, t))
      \/ (Mode # "c18fd" /\ \E ps \in RSlots, nm \in (IF Mode = "c18" THEN Plain ELSE AllNames), fl \in OFlags, uid \in Uids : PtCreate(ps, nm, fl, uid))
      \/ (~M18 /\ \E ns \in RSlots, ps \in RSlots, nm \in AllNames : PtLink(ns, ps, nm))
@@ -348,6 +376,7 @@ Init ==
   /\ itab = (1 :> [i |-> Export, t |-> "dir", ref |-> 2]) /\ htab = <<>>
   /\ nexti = 2 /\ nexth = 1
   /\ size0 = [i \in {j \in Ids(InitS) : InitS.ino[j].t = "reg"} |-> SizeOf(InitS.ino[i])]
+  /\ sw = [seal |-> Cfg.seal]
   /\ taint = {} /\ bad = {} /\ nops = 0 /\ hist = <<>>
   /\ last = [q |-> [op |-> "init"], got |-> Res("OK", NoRet), exp |-> [kind |-> "free", ok |-> TRUE, errs |-> {}, ret |-> NoRet], same |-> TRUE]
 Spec == Init /\ [][Next]_vars
@@ -365,6 +394,8 @@ OutsideFrozen == taint = {} => \A i \in OutsideOf(InitS) : i \in Ids(S) /\ S.ino
 Sealed == (Cfg.seal /\ taint = {}) => \A i \in DOMAIN size0 : (i \in Ids(S) /\ S.ino[i].t = "reg") => SizeOf(S.ino[i]) = size0[i]
 \* a handle the client holds keeps its open file description until it is released
 HandlesOK == \A j \in 0..(Len(hslots) - 1) : hslots[j + 1] # 0 => HKey(j) \in DOMAIN S.of
+\* destroy + init leave the switches that come from the configuration as configured
+SwitchesOK == sw = [seal |-> Cfg.seal]
 SealRulesOK == bad \cap {"seal-neutral", "seal-refused-effect"} = {}
 \* taint report and scenario export at the end of a history (parsed by checks/pttree.py)
 Report == nops < MaxOps \/
